@@ -290,7 +290,12 @@ func (state inSession) processReject(session *session, msg *Message, rej Message
 	case targetTooHigh:
 
 		var nextState resendState
-		switch currentState := session.State.(type) {
+		current := session.State
+		if pending, ok := current.(pendingTimeout); ok {
+			// A test request is outstanding: look at the state it wraps.
+			current = pending.sessionState
+		}
+		switch currentState := current.(type) {
 		case resendState:
 			// Assumes target too high reject already sent.
 			nextState = currentState
